@@ -283,3 +283,7 @@ mod tests {
         assert_eq!(enc.consume(), ref_enc.consume());
     }
 }
+
+#[cfg(kani)]
+#[path = "/verif/kani/parquet/encodings/levels.rs"]
+mod verif_kani;
